@@ -46,6 +46,12 @@ func (prop) Judge(b core.Batch, recs []core.Rec, exits []core.Exit) []core.Resul
 			// stash for the summary
 			res.Witness = sr
 			out = append(out, res)
+		case "health":
+			var hr healthRec
+			if r.XInto(&hr) == nil {
+				out = append(out, core.Result{K: r.K, Verdict: core.Violated, Sig: "C01|" + svc + "|service-stops-answering",
+					What: fmt.Sprintf("after scenario %d a well-formed dialogue on a new connection got %d reply bytes; before the workload the service gave %d bytes deterministically (same prefix: %d)", hr.K, hr.Got, hr.Want, hr.Same), Witness: hr})
+			}
 		case "idlemem":
 			var ms []struct{ Heap, RSS uint64 }
 			if r.XInto(&ms) == nil && len(ms) >= 3 {
